@@ -234,7 +234,14 @@ class World:
                 world.sched.point(f"write:{write_io.path[-20:]}")
                 world.event("write_begin", path=write_io.path, size=size, root=self.root, nth=nth)
                 verdict = world.write_policy(r, write_io.path, nth) if world.write_policy is not None else None
-                if verdict in ("fail", "fail-empty"):
+                if verdict == "fail-late" and not write_io.path.endswith(".snapshot_metadata"):
+                    # the bytes reach storage but the operation reports an error at the end (an error at flush/close, a lost
+                    # acknowledgement): unlike an immediate failure it completes TOGETHER with sibling writes in flight
+                    await super().write(write_io)
+                    world.sched.point(f"written-then-failed:{write_io.path[-20:]}")
+                    world.event("write_fail", path=write_io.path, nth=nth)
+                    raise InjectedFailure(f"injected late failure of write #{nth} of rank {r} ({write_io.path})")
+                if verdict in ("fail", "fail-empty", "fail-late"):
                     world.event("write_fail", path=write_io.path, nth=nth)
                     if verdict == "fail-empty":
                         raise InjectedFailure()      # an exception whose str() is empty (like a bare TimeoutError())
